@@ -65,12 +65,12 @@ PROPS = {
              "Theorems: the kernels receive only (coordinate - origin) and the axes origin + k*spacing, the interpolators are "
              "translation invariant over R; bit-for-bit grids for representable translations are examined on the implementation.",
              RULE_SOLVE + "; origins incl. 1e6-scale, single and list calls", props="props/C06.v", oracle_n=(50, 400), api_corr="api"),
-    "C07": P(GS, SOLVER2 + SOLVER3, "proof",
+    "C07": P(GS + ["ApiGen"], SOLVER2 + SOLVER3, "proof",
              "Theorems (all shapes, every numeric instance incl. binary64 with NaN): one sweep call changes one node and only "
              "downwards; a full sweep pass lowers every node or leaves it; nsweep is the iteration count of one pass function; "
              "strictly decreasing float ranks give convergence after finitely many passes.",
              RULE_SOLVE + "; nsweep = 1..32", props="props/C07.v"),
-    "C08": P(GALL, LISTS + ["fteik2d", "interp2d", "vinterp3d", "ray3d"], "proof",
+    "C08": P(GALL + ["ApiGen"], LISTS + ["fteik2d", "interp2d", "vinterp3d", "ray3d"], "proof",
              "Theorems: in the generated model every parallel loop is a map of the per-item kernel over the items in input order "
              "(the translator rejects a parallel loop whose body writes anything but its own output slots or reads them); the "
              "runtime (threads, chunking, backend, concurrent callers) is observed by the oracle: list vs single results bit-for-bit "
